@@ -26,6 +26,13 @@ for _op, _cs in [('ensure_capacity', _R6), ('ensure_capacity_exact', _R6), ('shr
                  ('clone_from', [1, 2, 3, 4, 5, 6, 8]), ('clone_from_slice', _R6), ('into_boxed_slice', _R6),
                  ('deref_eq', [1, 4, 6]), ('drop', [1, 3, 6])]:
     _BUFFER.update(_h(_caps(_op, _cs), _B))
+# quick tier: capacities 1, 2, 3, 6 (and 8); the middle instances only run in the thorough tier
+for _op, _cs in [(o, [4, 5]) for o in ['ensure_capacity', 'ensure_capacity_exact', 'push', 'push_resizing', 'push_zeros',
+                                       'push_zeros_front', 'push_slice', 'pop_zeros', 'erase_front', 'clone',
+                                       'clone_from_slice', 'into_boxed_slice']] + \
+                [('clone_from', [2, 4, 5]), ('shrink_to_fit', [3, 4, 7])]:
+    for _n in _caps(_op, _cs):
+        _BUFFER[_n]['tier'] = 'thorough'
 
 def _scan(fname, prefix):
     """Harness names defined in a harness file (every identifier with the group's unique prefix), in file order."""
@@ -52,14 +59,15 @@ for _n in ['from_buffer_c5', 'from_buffer_c8', 'from_ref_h6', 'clone_h4', 'clone
            'ones_134_200']:
     _REPR['vk_int_repr_' + _n]['tier'] = 'thorough'
 for _n in _REPR:
-    if '_clone' in _n:
+    if '_eq_cmp_hash' in _n:
+        _REPR[_n]['props'] = ['C05']
+    elif '_clone' in _n:
         _REPR[_n]['props'] = ['C17', 'C15']
     else:
         _REPR[_n]['props'] = ['C17', 'C05']
 
 _CMP = _h(_scan('int_cmp.rs', 'vk_int_cmp_'),
-          'magnitudes of at most 3 words (TypedReprRef: 4), full 64-bit symbolic words, both signs; Repr operands built '
-          'by from_word / from_dword / from_buffer (heap capacities 3..=6)')
+          'magnitudes of at most 3 words (TypedReprRef: 4), full 64-bit symbolic words')
 
 KANI = {
     'int_cmp': {
